@@ -473,7 +473,9 @@ pub fn run_script(lang: Lang, sigs: &[Vec<P>], calls: &[(usize, Vec<A>)], h: &mu
                 let detail = format!("wrote {:?} read {} signature {}", want, match (&dres, &got) { (_, Some(g)) => format!("{:?}", g), (Outcome::Err(d), _) => format!("error {}", one_line(&d.chars().take(200).collect::<String>())), (Outcome::Panic(p), _) => format!("panic {}", one_line(p)), _ => "?".into() }, sig_text(ps));
                 if let Outcome::Panic(p) = &dres { println!("ORACLE-FAIL\t{}: panic while decompiling what was just compiled\t{}\t{}", panic_class(p), one_line(p), input); }
                 else if changed && !diagnosed && !has_nul {
-                    if unfit { println!("ORACLE-FAIL\tnarrowing: an integer argument that does not fit its field was stored truncated without a diagnostic\t{}\t{}", detail, input); }
+                    let reg_beyond_mask = want.iter().enumerate().any(|(i, a)| a.reg && i >= 16);
+                    if reg_beyond_mask && !unfit { println!("ORACLE-FAIL\tmask-overflow: a register argument beyond the 16th parameter was stored as an immediate without a diagnostic\t{}\t{}", detail, input); }
+                    else if unfit { println!("ORACLE-FAIL\tnarrowing: an integer argument that does not fit its field was stored truncated without a diagnostic\t{}\t{}", detail, input); }
                     else if nulless_furi { println!("ORACLE-FAIL\tnulless-furibug: a nulless furibug string after a furigana line does not read back\t{}\t{}", detail, input); }
                     else { println!("ORACLE-FAIL\troundtrip: arguments changed by compile+decompile without a diagnostic\t{}\t{}", detail, input); }
                 } else if !changed && !diagnosed && !has_nul && !unfit && !nulless_furi
@@ -555,6 +557,9 @@ pub fn emit_decomp(lang: Lang, ps: &[P], raw: &truth::llir::RawInstr, dres: &Out
     let table = decode_table(ps, raw);
     let obs = match dres {
         Outcome::Ok((file, w, _)) => match call_args(file, &names_table()) {
+            // a float slot with the register bit set whose value is an integer beyond 2^24: the register id printed by the
+            // decompiler (`x as i32`, saturating) does not determine the bits any more; not compared
+            Ok(cs) if cs.len() == 1 && cs[0].1.iter().any(|a| a.reg && matches!(a.v, V::Float(b) if f32::from_bits(b).abs() >= 16777216.0)) => { h.bump("decomp_skipped_large_float_reg"); return; },
             Ok(cs) if cs.len() == 1 => {
                 let w2: Vec<u32> = w.iter().copied().filter(|x| *x != W_BADOFFSET).collect();
                 format!("(IOk ({}, {}))", args_coq(&cs[0].1), wlist(&w2))
